@@ -304,3 +304,15 @@ CHECKS["C04"]["text"] += " Third build round: the two index-file writers have an
 CHECKS["C01"]["text"] += (" StateApplyManager::{init, load_index} are under contract too: the two indexes the replay uses are exactly the last-applied index and (end of the LAST snapshot of the catalogue) + 1 that the index manager "
                           "reports (the waited future's value is exposed as a ghost result of the handler).")
 CHECKS["C01"]["note"] += " A-INDEXSANE: the index manager never reports a snapshot ending at u64::MAX (reply_sane); A-SNAPIMAGE; A-WAIT."
+
+# ---- third build round, later: snapshot writer + round trip, storage boundary, reply log
+CHECKS["C01"]["text"] += (" The snapshot CODEC is proved on both sides (unit snapshot): SnapshotWriter::{init, write_record, flush} and the writer actor (three T20 chains + its message handler) — a new snapshot file holds exactly "
+                          "the framed header (this obligation failed on the tree as found: finding S25, a leftover file of the same name kept its tail and a restart served removed data; repaired by 479e47b), every Record "
+                          "message appends exactly that record's frame — and the spec theorem lemma_snapshot_roundtrip: the image the writer produces is accepted by the reader, which yields exactly that header and exactly those "
+                          "records in that order (under A-DTO, A-CODEC, A-SNAPNONEMPTY). An always-on BOUNDED round-trip stand-in (real writer actor, real file, real reader; record sizes up to 3 MiB; fresh files and longer leftovers) stands behind it.")
+CHECKS["C07"]["text"] += (" The chain now starts at the storage boundary async-raft calls (impl RaftStorage for FileStore, T11 + T17): apply_entry_to_state_machine sends ONE ApplyRequest(index, entry), replicate_to_state_machine ONE "
+                          "ApplyBatchRequest with every entry unchanged in order, append_entry_to_log / replicate_to_log ONE Write / WriteBatch with the entries' records in order and acknowledge only what the log manager reported, "
+                          "delete_logs_from ONE StripLogToIndex(start). The three-path stand-in also drives one 60-entry follower batch in a single handler run (seed C07-6).")
+CHECKS["C05"]["text"] += (" At the storage boundary (unit raftdata): FileStore::save_hard_state sends ONE SaveHardState(term, vote or 0); FileStore::get_initial_state returns exactly the term, vote (0 = none), last-applied index and member set "
+                          "the index manager reports (reply log: the answers a function got are a ghost sequence its postcondition can talk about).")
+CHECKS["C08"]["text"] += (" FileStore::finalize_snapshot_installation is under contract: catalogue entry under the id the file was created with, then the very file to the apply manager, then split-off, membership query, pointer entry — in this order, nothing else.")
